@@ -11,26 +11,28 @@
 enum { KIND_ARRAY, KIND_LIST, KIND_TUPLE };
 enum { ET_INT, ET_FLOAT, ET_STR, ET_PE, ET_REC, ET_COUNT };
 static const char* KINDNAME[3] = { "Array", "List", "Tuple" };
-static const char* ETNAME[ET_COUNT] = { "Int", "Float", "String", "PElem", "Rec12" };
+static const char* ETNAME[ET_COUNT] = { "Int", "Float", "String", "PElem", "Rec20" };
 
-/* a plain 12-byte record without any instance: eq / cmp / assign / swap are the byte-wise defaults over size(type)
-   bytes, and 12 is not a multiple of the word size.  Bytes 0..7: the value, biased and big-endian (byte order ==
-   numeric order); bytes 8..11: a checksum of the value, so a torn record decodes to a value that was never stored. */
+/* a plain 20-byte record without any instance: eq / cmp / assign / swap are the byte-wise defaults over size(type)
+   bytes, and 20 is not a multiple of the word size.  Bytes 0..7: a tag every record shares (so that two different
+   records agree in their first word); bytes 8..15: the value, biased and big-endian (byte order == numeric order);
+   bytes 16..19: a checksum of the value, so a torn record decodes to a value that was never stored. */
 static var Rec12;
-struct Rec12 { unsigned char b[12]; };
+struct Rec12 { unsigned char b[20]; };
 static void rec12_fill(unsigned char* b, int64_t v) {
+  memcpy(b, "RECORD..", 8);
   uint64_t u = (uint64_t)v + ((uint64_t)1 << 62);
-  for (int i = 0; i < 8; i++) { b[i] = (unsigned char)(u >> (56 - 8 * i)); }
+  for (int i = 0; i < 8; i++) { b[8 + i] = (unsigned char)(u >> (56 - 8 * i)); }
   uint32_t c = (uint32_t)((uint64_t)v * 2654435761u) ^ 0xA5A5A5A5u;
-  memcpy(b + 8, &c, 4);
+  memcpy(b + 16, &c, 4);
 }
 static int64_t rec12_value(const unsigned char* b) {
   uint64_t u = 0;
-  for (int i = 0; i < 8; i++) { u = (u << 8) | b[i]; }
+  for (int i = 0; i < 8; i++) { u = (u << 8) | b[8 + i]; }
   int64_t v = (int64_t)(u - ((uint64_t)1 << 62));
   uint32_t c = (uint32_t)((uint64_t)v * 2654435761u) ^ 0xA5A5A5A5u, got;
-  memcpy(&got, b + 8, 4);
-  return got == c ? v : (int64_t)0x7ead7ead00000000 + (int64_t)(got & 0xffff);   /* torn record */
+  memcpy(&got, b + 16, 4);
+  return got == c && memcmp(b, "RECORD..", 8) == 0 ? v : (int64_t)0x7ead7ead00000000 + (int64_t)(got & 0xffff);   /* torn record */
 }
 static var rec12_init(char* buf, int64_t v) { var o = header_init(buf, Rec12, AllocStack); rec12_fill(o, v); return o; }
 enum { MAXLEN = 2600 };
@@ -54,7 +56,7 @@ static int64_t elem_value(int et, var e) {
    The macro keeps the compound literals alive for the enclosing block. */
 #define MKVAL(S, V, OUT) \
   char vh__b[32]; snprintf(vh__b, sizeof vh__b, "s%07" PRId64, (int64_t)(V) + 1000000); \
-  char vh__r[sizeof(struct Header) + 16]; \
+  char vh__r[sizeof(struct Header) + 24]; \
   var OUT = (S)->kind == KIND_TUPLE ? (var)new(Int, $I(V)) : \
             (S)->et == ET_INT ? (var)$I(V) : (S)->et == ET_FLOAT ? (var)$F((double)(V)) : \
             (S)->et == ET_STR ? (var)$S(vh__b) : (S)->et == ET_REC ? rec12_init(vh__r, (V)) : (var)PE_KEY((V), (uint64_t)(V))
@@ -310,7 +312,7 @@ static void one_op(vh_rng* r, struct seq* s, int maxlen, char* opd, size_t opcap
     memcpy(s->m, o.m, sizeof(int64_t) * (size_t)o.n); s->n = o.n;
     check_seq(&o, opd, "assign-source");
     /* mutate the source, the target must not change (deep copy) -- tuples share element objects by design */
-    char rbuf[sizeof(struct Header) + 16];
+    char rbuf[sizeof(struct Header) + 24];
     if (o.kind != KIND_TUPLE && o.n > 0) { set(o.c, $I(0), o.et == ET_INT ? (var)$I(777777) : o.et == ET_FLOAT ? (var)$F(777777.0) : o.et == ET_STR ? (var)$S("s1777777") : o.et == ET_REC ? rec12_init(rbuf, 777777) : (var)PE_KEY(777777, 1)); }
     del(o.c);
     vh_count("assign");
@@ -434,6 +436,6 @@ static void fixed(void) {
 int main(int argc, char** argv) {
   probes_init();
   pe_prop = "C04";
-  Rec12 = new_root(Type, $S("Rec12"), $I(12));
+  Rec12 = new_root(Type, $S("Rec20"), $I(20));
   return vh_run(argc, argv, "seq", fixed, case_random);
 }
